@@ -397,8 +397,8 @@ func copyDenseIter(dst, src DenseTensor, diter, siter Iterator) (int, error) {
 // asRowMajor returns t itself if it is row-major, otherwise a contiguous row-major tensor with the same logical contents.
 // Kernels that move raw blocks of storage (repeat, stack, contraction, flat arg-reductions) read column-major operands through it.
 func asRowMajor(t DenseTensor) DenseTensor {
-	if !t.DataOrder().IsColMajor() {
-		return t
+	if !t.DataOrder().IsColMajor() || t.Size() == 0 {
+		return t // (nothing to rearrange in a tensor without elements, and the iterators do not terminate on one)
 	}
 	retVal := recycledDense(t.Dtype(), t.Shape().Clone(), WithEngine(t.Engine()))
 	if _, err := copyDenseIter(retVal, t, nil, nil); err != nil {
